@@ -291,6 +291,27 @@ def check_writer(ctx, W, R, pt):
                 how = 'failure edge of the test at %s cannot reach the rename' % b.cond.where()
                 break
         chk.ob('AT4', 'checked[%s]' % s, ok, c.where(), W.name, detail, how=how)
+        if s == 'write' and c.get('callee') in ('write', 'pwrite') and ok:
+            # a raw write may transfer fewer bytes than asked for and still "succeed": the test has to compare
+            # the result with the byte count (or the write has to be repeated in a loop until all is written)
+            cnt = arg(c, 2)
+            cnt_txt = render(strip(cnt)) if cnt is not None else ''
+            cnt_decl = decl_of(cnt) if cnt is not None else None
+            full = C.in_loop(W, c)
+            for b, fail_idx in tests:
+                cond = strip(b.cond)
+                for n in cond.walk():
+                    if n.k == 'BinaryOperator' and n.get('op') in ('==', '!=', '<', '>=', '<=', '>'):
+                        for x in n.ch:
+                            sx = strip(x)
+                            if sx is None or sx.get('v') is not None:
+                                continue
+                            if render(sx) == cnt_txt or (cnt_decl is not None and (decl_of(sx) or {}).get('id') == cnt_decl['id']):
+                                full = True
+            chk.ob('AT4', 'complete[write]', full, c.where(), W.name,
+                   'the result of %s is only tested for an error: a short write (disk nearly full, quota, RLIMIT_FSIZE) '
+                   'counts as success and the truncated temporary file replaces the live file' % render(c)[:70],
+                   how='the result is compared with the byte count %s' % cnt_txt)
     # ---- AT5: cleanup -----------------------------------------------------------------
     if creates:
         cr = creates[0]
